@@ -169,7 +169,10 @@ impl Engine for ConcEngine {
             .collect();
         let data_blocks = if p.tiny_device { *c.pick(&[8u64, 10, 12, 16]) } else { *c.pick(&[32u64, 64]) };
         let overhead = FeoxStore::verif_record_overhead();
-        let max_memory = if p.tight_memory {
+        // own tape: a quarter of the limited profile's runs have no limit at all (the admission then
+        // takes its unconditional branch; the accounting has to be exact all the same)
+        let unlimited = p.tight_memory && Tape::fresh(mix(seed, 0x0717)).chance(1, 4);
+        let max_memory = if p.tight_memory && !unlimited {
             Some((overhead + 80) * (1 + c.below(3) as usize) + c.below(3000) as usize)
         } else {
             None
